@@ -527,3 +527,16 @@ Proof.
   rewrite sg_outs, sg_relay, sg_halted, sg_now. repeat split; auto.
   destruct HE as [->|[_ ->]]; unfold sh; autorewrite with shg; eexists; reflexivity.
 Qed.
+
+(* The hypothesis cfg_btn c = false of the theorem above is necessary: a configuration button that is held during start-up
+   and released after the silent period makes the first click-window test read lsc = 0, i.e. the raw counter; with the
+   counter below / above 2 s at that moment the click counter differs (visible in the fourth notify) *)
+Definition cfgbtn_cfg (b : Z) : cfgT :=
+  {| boot := b; typ := TYPE_MONOSTABLE; flags := FLAG_CFG_BTN; rel := false; chan := 255; cap := 0; rst := true |}.
+Definition cfgbtn_evs : list event := [EAdv 600000; EIn 0; EAdv 400000; EIn 1; EAdv 400000].
+Example cfgbtn_initial_window_depends_on_boot :
+  rev (outs (run (cfgbtn_cfg 1) 1 cfgbtn_evs)) =
+    [ONotify 120000 1 0 0; ONotify 720000 0 1 0; OInactive 720000; ONotify 1120000 1 0 0; OActive 1120000] /\
+  rev (outs (run (cfgbtn_cfg 5000001) 1 cfgbtn_evs)) =
+    [ONotify 120000 1 0 0; ONotify 720000 0 1 0; OInactive 720000; ONotify 1120000 1 0 1; OActive 1120000].
+Proof. vm_compute. split; reflexivity. Qed.
